@@ -399,6 +399,19 @@ class Engine:
                 raise Unsupported("iteration over str")
         raise Unsupported(f"iteration over {v!r}")
 
+    def field_closed(self, st, name):
+        """entry-state attribute arrays only hold references allocated at entry (once per field)"""
+        key = "closed_fld0_" + name
+        if st.ghost.get(key) or self.entry_alloc is None:
+            return
+        st.ghost[key] = True
+        from .heap import FieldSort
+        base = z3.Const(f"fld0_{name}", FieldSort)
+        r = z3.Int("cf_r")
+        v = z3.Select(base, r)
+        st.assume(z3.ForAll([r], z3.Implies(is_ref(v), z3.And(get_ref(v) >= 0, get_ref(v) < self.entry_alloc)),
+                            patterns=[v]))
+
     # ------------------------------------------------------------------------------------------
     # frames
     # ------------------------------------------------------------------------------------------
@@ -412,7 +425,7 @@ class Engine:
             self.oblige(f"{self.qual}.{label}.frame.{what}@L{self.cur_line}", st,
                         z3.Or([ref >= a0] + [ref == r for r in refs]), "frame")
         ts = self.reg.tree_struct
-        if ts is not None and what in ts.protected_kinds:
+        if ts is not None and what in ts.protected_kinds and ts.active(st):
             ts.base_axioms(self, st)
             self.oblige(f"{self.qual}.treestruct.{what}@L{self.cur_line}", st,
                         z3.Not(ts.pred(ref)), "frame")
